@@ -112,4 +112,424 @@ theorem fields_body (c : Constraint)
       simp only [body, List.cons_append, fieldsGo, hsp, if_true, List.isEmpty_nil] at ih
       simp only [body, List.cons_append, fieldsGo, hsp, if_true, hne, Bool.false_eq_true, if_false, ih]
 
+/-! roundtrip -/
+theorem parseOption_optText {tc : Char → Bool} (hs : SepFree tc) (o : Opt) (hv : validOpt tc o = true) (hne : o ≠ []) :
+    parseOption tc (optText o) = some o := by
+  unfold parseOption
+  simp only [split_optText hs o hv hne, hv, if_true]
+
+theorem parseOptions_map {tc : Char → Bool} (hs : SepFree tc) (c : Constraint)
+    (hv : validConstraint tc c = true) (hne : ∀ o ∈ c, o ≠ []) :
+    parseOptions tc (c.map optText) = some c := by
+  induction c with
+  | nil => rfl
+  | cons o os ih =>
+    have hv' : validOpt tc o = true ∧ validConstraint tc os = true := by
+      simpa [validConstraint] using hv
+    simp only [List.map_cons, parseOptions,
+      parseOption_optText hs o hv'.1 (hne o List.mem_cons_self),
+      ih hv'.2 (fun o' ho' => hne o' (List.mem_cons_of_mem _ ho'))]
+
+/-! toolchain literals -/
+theorem toolchainTag_eq (tc : Char → Bool) (t : Term) : validTerm tc t = toolchainTag tc t := by
+  unfold validTerm toolchainTag isValidTag
+  split
+  · rfl
+  · rename_i h
+    split
+    · exact absurd rfl (h _)
+    · simp [name]
+    · rename_i r h2 h3
+      simp [name]
+    · rename_i h2 h3 h4
+      have : name t = t := by
+        unfold name; split
+        · exact absurd rfl (h4 _)
+        · rfl
+      rw [this]
+
+theorem litExpr_valid (tc : Char → Bool) (t : Term) (h : validTerm tc t = true) :
+    litExpr tc t = if isNegated t then .not (.tag (name t)) else .tag (name t) := by
+  rw [toolchainTag_eq] at h
+  unfold toolchainTag at h
+  unfold litExpr
+  split
+  · simp at h
+  · simp at h
+  · rename_i r h2 h3
+    simp only at h
+    simp [h, isNegated, name]
+  · rename_i h2 h3 h4
+    have hn : name t = t := by
+      unfold name; split
+      · exact absurd rfl (h4 _)
+      · rfl
+    have hneg : isNegated t = false := by
+      unfold isNegated; split
+      · exact absurd rfl (h4 _)
+      · rfl
+    split at h
+    · exact absurd rfl (h2 _)
+    · exact absurd rfl h3
+    · exact absurd rfl (h4 _)
+    · simp [h, hn, hneg]
+
+theorem eval_litExpr (tc : Char → Bool) (v : Str → Bool) (t : Term) (h : validTerm tc t = true) :
+    (litExpr tc t).eval v = evalTerm tc v t := by
+  rw [litExpr_valid tc t h]
+  unfold evalTerm
+  rw [h]
+  cases hn : isNegated t <;> simp [Expr.eval]
+
+theorem eval_andAll (v : Str → Bool) (x : Expr) (ys : List Expr) :
+    (andAll x ys).eval v = (x.eval v && ys.all (·.eval v)) := by
+  induction ys generalizing x with
+  | nil => simp [andAll]
+  | cons y ys ih => simp [andAll, ih, Expr.eval, Bool.and_assoc]
+
+theorem eval_orAll (v : Str → Bool) (x : Expr) (ys : List Expr) :
+    (orAll x ys).eval v = (x.eval v || ys.any (·.eval v)) := by
+  induction ys generalizing x with
+  | nil => simp [orAll]
+  | cons y ys ih => simp [orAll, ih, Expr.eval, Bool.or_assoc]
+
+theorem all_congr' {α} (l : List α) (f g : α → Bool) (h : ∀ x ∈ l, f x = g x) : l.all f = l.all g := by
+  induction l with
+  | nil => rfl
+  | cons a l ih =>
+    simp only [List.all_cons, h a List.mem_cons_self, ih (fun x hx => h x (List.mem_cons_of_mem _ hx))]
+
+theorem any_congr' {α} (l : List α) (f g : α → Bool) (h : ∀ x ∈ l, f x = g x) : l.any f = l.any g := by
+  induction l with
+  | nil => rfl
+  | cons a l ih =>
+    simp only [List.any_cons, h a List.mem_cons_self, ih (fun x hx => h x (List.mem_cons_of_mem _ hx))]
+
+theorem eval_clauseExpr {tc : Char → Bool} (hs : SepFree tc) (v : Str → Bool) (o : Opt)
+    (hv : validOpt tc o = true) (hne : o ≠ []) :
+    (clauseExpr tc (optText o)).eval v = evalOpt tc v o := by
+  unfold clauseExpr
+  rw [split_optText hs o hv hne]
+  have hall : ∀ t ∈ o, validTerm tc t = true := by simpa [validOpt] using hv
+  cases o with
+  | nil => exact absurd rfl hne
+  | cons t ts =>
+    simp only [List.map_cons, eval_andAll, evalOpt, List.all_cons, List.all_map]
+    rw [eval_litExpr tc v t (hall t List.mem_cons_self)]
+    congr 1
+    apply all_congr'
+    intro x hx
+    exact eval_litExpr tc v x (hall x (List.mem_cons_of_mem _ hx))
+
+theorem sumOps_eq {tc : Char → Bool} (hs : SepFree tc) (c : Constraint)
+    (hv : validConstraint tc c = true) (hne : ∀ o ∈ c, o ≠ []) :
+    ((c.map optText).map (fun cl => (split ',' cl).length - 1)).sum + c.length = termCount c := by
+  induction c with
+  | nil => rfl
+  | cons o os ih =>
+    have hv' : validOpt tc o = true ∧ validConstraint tc os = true := by
+      simpa [validConstraint] using hv
+    have ho := hne o List.mem_cons_self
+    have ih := ih hv'.2 (fun o' ho' => hne o' (List.mem_cons_of_mem _ ho'))
+    have hl : 0 < o.length := List.length_pos_iff.mpr ho
+    simp only [List.map_cons, List.sum_cons, List.length_cons, termCount, split_optText hs o hv'.1 ho] at ih ⊢
+    omega
+
+theorem plusBuildExpr_of_fields {tc : Char → Bool} (hs : SepFree tc) (c : Constraint)
+    (hv : validConstraint tc c = true) (hne : ∀ o ∈ c, o ≠ []) (hsz : termCount c ≤ maxOldSize + 1)
+    (text : Str) (hf : fields text = c.map optText) :
+    plusBuildExpr tc text = some (lineExpr tc c) := by
+  unfold plusBuildExpr
+  simp only [hf]
+  have h1 := sumOps_eq hs c hv hne
+  have : ¬ plusOps (c.map optText) > maxOldSize := by
+    unfold plusOps
+    cases c with
+    | nil => simp [maxOldSize]
+    | cons o os => simp only [List.length_map, List.length_cons, maxOldSize] at *; omega
+  simp only [this, if_false, List.map_map, lineExpr]
+  cases c with
+  | nil => rfl
+  | cons o os => rfl
+
+theorem eval_lineExpr {tc : Char → Bool} (hs : SepFree tc) (v : Str → Bool) (c : Constraint)
+    (hv : validConstraint tc c = true) (hne : ∀ o ∈ c, o ≠ [])
+    (hig : c ≠ [] ∨ v ignoreTag = false) :
+    (lineExpr tc c).eval v = evalConstraint tc v c := by
+  have hall : ∀ o ∈ c, validOpt tc o = true := by simpa [validConstraint] using hv
+  unfold lineExpr evalConstraint
+  cases c with
+  | nil =>
+    rcases hig with h | h
+    · exact absurd rfl h
+    · simp [Expr.eval, h]
+  | cons o os =>
+    simp only [List.map_cons, eval_orAll, List.any_cons, List.any_map]
+    rw [eval_clauseExpr hs v o (hall o List.mem_cons_self) (hne o List.mem_cons_self)]
+    congr 1
+    apply any_congr'
+    intro x hx
+    exact eval_clauseExpr hs v x (hall x (List.mem_cons_of_mem _ hx)) (hne x (List.mem_cons_of_mem _ hx))
+
+/-! lines -/
+def lineArg (c : Constraint) : Str := trimSpace (trimRight (body c))
+
+theorem body_head (c : Constraint) : body c = [] ∨ ∃ x, body c = ' ' :: x := by
+  cases c with
+  | nil => exact Or.inl rfl
+  | cons o os => exact Or.inr ⟨_, rfl⟩
+
+theorem stripOneNewline_id (s : Str) (h : '\n' ∉ s) : stripOneNewline s = s := by
+  unfold stripOneNewline
+  split
+  · rename_i r hr
+    have : '\n' ∈ s.reverse := by rw [hr]; exact List.mem_cons_self
+    exact absurd (List.mem_reverse.mp this) h
+  · rfl
+
+theorem splitPlusBuild_lineText (c : Constraint) (hnl : '\n' ∉ body c) :
+    splitPlusBuild (lineText c) = some (lineArg c) := by
+  have hnl' : '\n' ∉ lineText c := by
+    unfold lineText plusPrefix
+    simp only [List.mem_append, not_or]
+    exact ⟨by decide, hnl⟩
+  unfold splitPlusBuild
+  simp only [stripOneNewline_id _ hnl']
+  have hc : (lineText c).contains '\n' = false := by simpa using hnl'
+  simp only [hc, Bool.false_eq_true, if_false]
+  have h1 : dropPrefix? ['/', '/'] (lineText c) = some (' ' :: (['+', 'b', 'u', 'i', 'l'] ++ 'd' :: body c)) := by
+    simp [lineText, plusPrefix, dropPrefix?]
+  simp only [h1]
+  have h2 : trimSpace (' ' :: (['+', 'b', 'u', 'i', 'l'] ++ 'd' :: body c)) = plusBuildWord ++ trimRight (body c) := by
+    unfold trimSpace
+    have : trimLeft (' ' :: (['+', 'b', 'u', 'i', 'l'] ++ 'd' :: body c)) = ['+', 'b', 'u', 'i', 'l'] ++ 'd' :: body c := by
+      unfold trimLeft
+      rw [List.dropWhile_cons]
+      have : isSpace ' ' = true := by decide
+      simp only [this, if_true]
+      have h3 : isSpace '+' = false := by decide
+      simp [h3]
+    rw [this, trimRight_prefix _ _ _ (by decide), trimRight_cons]
+    have : isSpace 'd' = false := by decide
+    simp [this, plusBuildWord]
+  simp only [h2]
+  have h3 : dropPrefix? plusBuildWord (plusBuildWord ++ trimRight (body c)) = some (trimRight (body c)) := by
+    simp [plusBuildWord, dropPrefix?]
+  simp only [h3]
+  have h4 : ¬ (((trimRight (body c)).length == (trimSpace (trimRight (body c))).length && !(trimRight (body c)).isEmpty) = true) := by
+    rcases body_head c with h | ⟨x, h⟩
+    · simp [h, trimRight_nil]
+    · rw [h, trimRight_cons]
+      split
+      · simp
+      · have hl : (trimSpace (' ' :: trimRight x)).length ≤ (trimRight x).length := by
+          unfold trimSpace
+          have : trimLeft (' ' :: trimRight x) = trimLeft (trimRight x) := by
+            unfold trimLeft; rw [List.dropWhile_cons]
+            have : isSpace ' ' = true := by decide
+            simp [this]
+          rw [this]
+          exact Nat.le_trans (length_trimRight_le _) (length_trimLeft_le _)
+        simp only [List.length_cons, Bool.and_eq_true, beq_iff_eq, not_and]
+        intro heq
+        omega
+  simp [h4, lineArg]
+
+theorem fields_lineArg (c : Constraint) : fields (lineArg c) = fields (body c) := by
+  unfold lineArg; rw [fields_trimSpace, fields_trimRight]
+
+theorem mem_body (c : Constraint) (ch : Char) (h : ch ∈ body c) : ch = ' ' ∨ ∃ o ∈ c, ch ∈ optText o := by
+  induction c with
+  | nil => simp [body] at h
+  | cons o os ih =>
+    simp only [body, List.cons_append, List.mem_cons, List.mem_append] at h
+    rcases h with h | h | h
+    · exact Or.inl h
+    · exact Or.inr ⟨o, List.mem_cons_self, h⟩
+    · rcases ih h with h | ⟨o', ho', h⟩
+      · exact Or.inl h
+      · exact Or.inr ⟨o', List.mem_cons_of_mem _ ho', h⟩
+
+theorem newline_not_in_body {tc : Char → Bool} (hs : SepFree tc) (c : Constraint)
+    (hv : validConstraint tc c = true) : '\n' ∉ body c := by
+  intro h
+  have hall : ∀ o ∈ c, validOpt tc o = true := by simpa [validConstraint] using hv
+  rcases mem_body c _ h with h | ⟨o, ho, h⟩
+  · exact absurd h (by decide)
+  · rcases mem_join _ _ _ h with h | ⟨t, ht, h⟩
+    · exact absurd h (by decide)
+    · have hvt : validTerm tc t = true := by
+        have := hall o ho
+        simp only [validOpt, List.all_eq_true] at this
+        exact this t ht
+      have := (validTerm_sep hs t hvt).2.2 _ h
+      exact absurd this (by decide)
+
+def pkgLine : Str := ['p', 'a', 'c', 'k', 'a', 'g', 'e', ' ', 's', 't', 'u', 'b']
+
+theorem split_goString (cs : Constraints) (h : ∀ c ∈ cs, '\n' ∉ lineText c) :
+    split '\n' (goString cs ++ stubSuffix) = cs.map lineText ++ [[], pkgLine] := by
+  unfold split
+  induction cs with
+  | nil => simp [goString, stubSuffix, splitGo, pkgLine]
+  | cons c cs ih =>
+    have hc := h c List.mem_cons_self
+    have ih := ih (fun c' hc' => h c' (List.mem_cons_of_mem _ hc'))
+    simp only [goString, goStringC, List.append_assoc, List.map_cons, List.cons_append]
+    rw [splitGo_append '\n' (lineText c) _ [] (fun x hx hxe => hc (hxe ▸ hx))]
+    simp only [List.nil_append, splitGo, beq_self_eq_true, if_true, ih]
+
+theorem filterMap_lines (cs : Constraints) (h : ∀ c ∈ cs, '\n' ∉ body c) :
+    (cs.map lineText ++ [[], pkgLine]).filterMap splitPlusBuild = cs.map lineArg := by
+  induction cs with
+  | nil => decide
+  | cons c cs ih =>
+    have ih := ih (fun c' hc' => h c' (List.mem_cons_of_mem _ hc'))
+    simp only [List.map_cons, List.cons_append, List.filterMap_cons,
+      splitPlusBuild_lineText c (h c List.mem_cons_self), ih]
+
+theorem parseAll_map (tc : Char → Bool) (cs : Constraints)
+    (h : ∀ c ∈ cs, plusBuildExpr tc (lineArg c) = some (lineExpr tc c)) :
+    parseAll tc (cs.map lineArg) = some (cs.map (lineExpr tc)) := by
+  induction cs with
+  | nil => rfl
+  | cons c cs ih =>
+    simp only [List.map_cons, parseAll, h c List.mem_cons_self,
+      ih (fun c' hc' => h c' (List.mem_cons_of_mem _ hc'))]
+
+/-- What `buildtags.Format` prints for a valid constraint set within the
+`// +build` complexity limit: nothing for the empty set, otherwise one
+`//go:build` line with the AND of the line expressions. -/
+theorem format_eq {tc : Char → Bool} (hs : SepFree tc) (cs : Constraints)
+    (hv : validate tc cs = true) (hne : ∀ c ∈ cs, ∀ o ∈ c, o ≠ [])
+    (hsz : ∀ c ∈ cs, termCount c ≤ maxOldSize + 1) :
+    format tc cs = match cs.map (lineExpr tc) with
+      | [] => .none
+      | e :: es => .goBuild (andAll e es) := by
+  have hall : ∀ c ∈ cs, validConstraint tc c = true := by simpa [validate] using hv
+  have hnl : ∀ c ∈ cs, '\n' ∉ body c := fun c hc => newline_not_in_body hs c (hall c hc)
+  have hnl' : ∀ c ∈ cs, '\n' ∉ lineText c := by
+    intro c hc
+    unfold lineText plusPrefix
+    simp only [List.mem_append, not_or]
+    exact ⟨by decide, hnl c hc⟩
+  unfold format formatHeader
+  rw [split_goString cs hnl', filterMap_lines cs hnl, parseAll_map]
+  · cases cs.map (lineExpr tc) <;> rfl
+  · intro c hc
+    have hvc := hall c hc
+    have hallo : ∀ o ∈ c, validOpt tc o = true := by simpa [validConstraint] using hvc
+    apply plusBuildExpr_of_fields hs c hvc (hne c hc) (hsz c hc)
+    rw [fields_lineArg]
+    exact fields_body c (fun o ho => optText_word hs o (hallo o ho) (hne c hc o ho))
+
+/-! sizes -/
+def isBin : Expr → Nat
+  | .and _ _ => 1
+  | .or _ _ => 1
+  | _ => 0
+
+theorem psize_le (e : Expr) : e.psize + isBin e + 1 ≤ 2 * e.leaves := by
+  induction e with
+  | tag t => simp [Expr.psize, Expr.leaves, isBin]
+  | not x ih =>
+    cases x <;> simp only [Expr.psize, Expr.leaves, isBin] at ih ⊢ <;> omega
+  | and x y ihx ihy =>
+    cases x <;> cases y <;> simp only [Expr.psize, Expr.leaves, isBin] at ihx ihy ⊢ <;> omega
+  | or x y ihx ihy =>
+    cases x <;> cases y <;> simp only [Expr.psize, Expr.leaves, isBin] at ihx ihy ⊢ <;> omega
+
+theorem leaves_andAll (x : Expr) (ys : List Expr) : (andAll x ys).leaves = x.leaves + (ys.map Expr.leaves).sum := by
+  induction ys generalizing x with
+  | nil => simp [andAll]
+  | cons y ys ih => simp [andAll, ih, Expr.leaves, Nat.add_assoc]
+
+theorem leaves_orAll (x : Expr) (ys : List Expr) : (orAll x ys).leaves = x.leaves + (ys.map Expr.leaves).sum := by
+  induction ys generalizing x with
+  | nil => simp [orAll]
+  | cons y ys ih => simp [orAll, ih, Expr.leaves, Nat.add_assoc]
+
+theorem leaves_litExpr (tc : Char → Bool) (t : Str) : (litExpr tc t).leaves = 1 := by
+  unfold litExpr
+  split <;> (try split) <;> simp [Expr.leaves]
+
+theorem sum_leaves_lit (tc : Char → Bool) (zs : List Str) :
+    (zs.map (Expr.leaves ∘ litExpr tc)).sum = zs.length := by
+  induction zs with
+  | nil => rfl
+  | cons a zs ih => simp only [List.map_cons, List.sum_cons, Function.comp_apply, leaves_litExpr, List.length_cons, ih]; omega
+
+theorem leaves_clauseExpr (tc : Char → Bool) (s : Str) : (clauseExpr tc s).leaves = (split ',' s).length := by
+  unfold clauseExpr
+  cases h : split ',' s with
+  | nil => exact absurd h (splitGo_ne_nil _ _ _)
+  | cons z zs =>
+    simp only [List.map_cons, leaves_andAll, leaves_litExpr, List.length_cons, List.map_map]
+    have := sum_leaves_lit tc zs
+    omega
+
+theorem leaves_lineExpr {tc : Char → Bool} (hs : SepFree tc) (c : Constraint)
+    (hv : validConstraint tc c = true) (hne : ∀ o ∈ c, o ≠ []) :
+    (lineExpr tc c).leaves = max 1 (termCount c) := by
+  have hall : ∀ o ∈ c, validOpt tc o = true := by simpa [validConstraint] using hv
+  have hsum : ∀ (os : List Opt), (∀ o ∈ os, validOpt tc o = true) → (∀ o ∈ os, o ≠ []) →
+      ((os.map (fun o => clauseExpr tc (optText o))).map Expr.leaves).sum = termCount os := by
+    intro os
+    induction os with
+    | nil => intros; rfl
+    | cons o os ih =>
+      intro h1 h2
+      simp only [List.map_cons, List.sum_cons, termCount, leaves_clauseExpr,
+        split_optText hs o (h1 o List.mem_cons_self) (h2 o List.mem_cons_self)]
+      have := ih (fun o' ho' => h1 o' (List.mem_cons_of_mem _ ho')) (fun o' ho' => h2 o' (List.mem_cons_of_mem _ ho'))
+      simp only [termCount] at this
+      omega
+  unfold lineExpr
+  cases c with
+  | nil => simp [Expr.leaves, termCount]
+  | cons o os =>
+    have h := hsum (o :: os) hall hne
+    have hpos : 0 < o.length := List.length_pos_iff.mpr (hne o List.mem_cons_self)
+    simp only [List.map_cons, List.sum_cons, leaves_orAll] at h ⊢
+    rw [h]
+    simp only [termCount, List.map_cons, List.sum_cons]
+    omega
+
+theorem leaves_header {tc : Char → Bool} (hs : SepFree tc) (c : Constraint) (cs : Constraints)
+    (hv : validate tc (c :: cs) = true) (hne : ∀ c' ∈ c :: cs, ∀ o ∈ c', o ≠ []) :
+    (andAll (lineExpr tc c) (cs.map (lineExpr tc))).leaves = sizeBound (c :: cs) := by
+  have hall : ∀ c' ∈ c :: cs, validConstraint tc c' = true := by simpa [validate] using hv
+  rw [leaves_andAll]
+  have : ∀ (l : Constraints), (∀ c' ∈ l, validConstraint tc c' = true) → (∀ c' ∈ l, ∀ o ∈ c', o ≠ []) →
+      ((l.map (lineExpr tc)).map Expr.leaves).sum = sizeBound l := by
+    intro l
+    induction l with
+    | nil => intros; rfl
+    | cons a l ih =>
+      intro h1 h2
+      simp only [List.map_cons, List.sum_cons, sizeBound,
+        leaves_lineExpr hs a (h1 a List.mem_cons_self) (h2 a List.mem_cons_self)]
+      have := ih (fun o' ho' => h1 o' (List.mem_cons_of_mem _ ho')) (fun o' ho' => h2 o' (List.mem_cons_of_mem _ ho'))
+      simp only [sizeBound] at this
+      omega
+  have h := this (c :: cs) hall hne
+  simpa using h
+
+theorem eval_header {tc : Char → Bool} (hs : SepFree tc) (v : Str → Bool) (c : Constraint) (cs : Constraints)
+    (hv : validate tc (c :: cs) = true) (hne : ∀ c' ∈ c :: cs, ∀ o ∈ c', o ≠ [])
+    (hig : (∀ c' ∈ c :: cs, c' ≠ []) ∨ v ignoreTag = false) :
+    (andAll (lineExpr tc c) (cs.map (lineExpr tc))).eval v = evaluate tc v (c :: cs) := by
+  have hall : ∀ c' ∈ c :: cs, validConstraint tc c' = true := by simpa [validate] using hv
+  have hl : ∀ c' ∈ c :: cs, (lineExpr tc c').eval v = evalConstraint tc v c' := by
+    intro c' hc'
+    apply eval_lineExpr hs v c' (hall c' hc') (hne c' hc')
+    rcases hig with h | h
+    · exact Or.inl (h c' hc')
+    · exact Or.inr h
+  rw [eval_andAll, evaluate, List.all_cons, List.all_map, hl c List.mem_cons_self]
+  congr 1
+  apply all_congr'
+  intro x hx
+  exact hl x (List.mem_cons_of_mem _ hx)
+
 end Avo.Tags
